@@ -159,6 +159,10 @@ func (g *Graph) Dominates(a, b Loc) bool {
 		return false
 	}
 	if a.B == b.B && a.I == b.I {
+		// both inside the same transparent helper call: judged in the helper's graph
+		if a.Orig != nil && b.Orig != nil && a.Orig.G == b.Orig.G && a.Orig.G != g {
+			return a.Orig.G.Dominates(a.Orig.L, b.Orig.L)
+		}
 		return a.P <= b.P
 	}
 	return !g.Reach(g.Entry(), at(b), at(a), nil)
@@ -177,6 +181,9 @@ func (g *Graph) DominatesAny(as []Loc, b Loc) bool {
 // CanFollow: some path executes a and later b.
 func (g *Graph) CanFollow(a, b Loc) bool {
 	if a.B == b.B && a.I == b.I {
+		if a.Orig != nil && b.Orig != nil && a.Orig.G == b.Orig.G && a.Orig.G != g && a.Orig.G.CanFollow(a.Orig.L, b.Orig.L) {
+			return true
+		}
 		if a.P < b.P {
 			return true
 		}
